@@ -30,12 +30,12 @@ abbrev Cmp := CV → St → UInt64 → UInt32 → UInt32 → St
 
 def specCmp : Cmp := Spec.compress
 
-def OUT_LEN : Nat := 32
-def KEY_LEN : Nat := 32
-def BLOCK_LEN : Nat := 64
-def CHUNK_LEN : Nat := 1024
+abbrev OUT_LEN : Nat := 32
+abbrev KEY_LEN : Nat := 32
+abbrev BLOCK_LEN : Nat := 64
+abbrev CHUNK_LEN : Nat := 1024
 /-- `cv_stack: [[u32; 8]; 54]` -/
-def STACK_CAP : Nat := 54
+abbrev STACK_CAP : Nat := 54
 
 def CHUNK_START : UInt32 := (1 : UInt32) <<< 0
 def CHUNK_END : UInt32 := (1 : UInt32) <<< 1
@@ -102,7 +102,7 @@ deriving DecidableEq
 def ChunkState.new (keyWords : CV) (chunkCounter : Nat) (flags : UInt32) : ChunkState :=
   { chainingValue := keyWords, chunkCounter := chunkCounter, block := [], blocksCompressed := 0, flags := flags }
 
-def ChunkState.blockLen (cs : ChunkState) : Nat := cs.block.length
+abbrev ChunkState.blockLen (cs : ChunkState) : Nat := cs.block.length
 
 /-- `ChunkState::len` -/
 def ChunkState.len (cs : ChunkState) : Nat := BLOCK_LEN * cs.blocksCompressed + cs.blockLen
@@ -124,8 +124,9 @@ def ChunkState.compressFullBlock (cs : ChunkState) : ChunkState :=
       block := [] }
   else cs
 
+set_option linter.unusedVariables false in
 /-- `ChunkState::update`: `while !input.is_empty()`.  The branch `take = 0` cannot be taken when
-`block_len ≤ 64` (`Proofs.Ref.ChunkState.update_wf`); in the reference `BLOCK_LEN - block_len`
+`block_len ≤ 64` (preserved: `Proofs.Ref.cs_update_wf`); in the reference `BLOCK_LEN - block_len`
 would underflow there.  It only makes the definition total. -/
 def ChunkState.update (cs : ChunkState) (input : List UInt8) : ChunkState :=
   if hi : input = [] then cs else
@@ -233,6 +234,7 @@ def Hasher.finishChunk (h : Hasher) : Option Hasher :=
       some { h with cvStack := stack, chunkState := ChunkState.new h.keyWords totalChunks h.flags }
   else some h
 
+set_option linter.unusedVariables false in
 /-- `Hasher::update`: `while !input.is_empty()`; `none` = a panic of `push_stack` / `pop_stack`.
 The branch `take = 0` cannot be taken when the chunk state holds at most 1024 bytes
 (`CHUNK_LEN - len` would underflow in the reference); it makes the definition total. -/
